@@ -1,1 +1,548 @@
-From CssV Require Import Base Tokenizer CodecPyLib Gen.CodecFns Codec.
+(* CodecFacts.v -- theorems about the css codec model: detection priority, @charset rewriting,
+   chunking invariance of the incremental decoder / encoder, decode after encode. *)
+From CssV Require Import Base CodecPyLib Gen.CodecFns Codec CodecDetect.
+Local Open Scope Z_scope.
+
+(* ================================================================== detection priority (all continuations) *)
+Definition sig_name : str := s "utf-8-sig".
+Definition utf16 : str := s "utf-16".
+Definition utf32 : str := s "utf-32".
+
+Ltac to4 := rewrite detect_4; rewrite (post_li _ _ 4) by (apply len4 || lia); unfold C4; cbn [eqs].
+Ltac done_leaf := vm_compute; try match goal with |- context[if ?f then _ else _] => destruct f end; reflexivity.
+
+Lemma bom_utf8sig r fin : detectencoding_str (239 :: 187 :: 191 :: r)%N fin = Some (Some sig_name, true).
+Proof.
+  destruct r as [|b3 r]; [rewrite detect_3; done_leaf|]. to4. sp3 b3; done_leaf.
+Qed.
+
+Lemma bom_utf16_be r fin : detectencoding_str (254 :: 255 :: r)%N fin = Some (Some utf16, true).
+Proof.
+  destruct r as [|b2 [|b3 r]]; [rewrite detect_2; done_leaf|rewrite detect_3; unfold C3; sp2 b2; done_leaf|].
+  to4. sp2 b2; try solve [done_leaf]; sp3 b3; done_leaf.
+Qed.
+
+Lemma bom_utf16_le b2 b3 r fin : (b2 <> 0 \/ b3 <> 0)%N ->
+  detectencoding_str (255 :: 254 :: b2 :: b3 :: r)%N fin = Some (Some utf16, true).
+Proof.
+  intros H. to4. sp2 b2; sp3 b3; try solve [done_leaf]; exfalso; destruct H as [H|H]; now apply H.
+Qed.
+
+Lemma bom_utf16_le_3 b2 fin : (b2 <> 0)%N -> detectencoding_str [255; 254; b2]%N fin = Some (Some utf16, true).
+Proof. intros H. rewrite detect_3. unfold C3. sp2 b2; try solve [done_leaf]. now exfalso. Qed.
+
+(* end of input right after ff fe (the repaired case) *)
+Lemma bom_utf16_le_only : detectencoding_str [255; 254]%N true = Some (Some utf16, true).
+Proof. reflexivity. Qed.
+Lemma bom_utf16_le_only0 : detectencoding_str [255; 254; 0]%N true = Some (Some utf16, true).
+Proof. reflexivity. Qed.
+
+Lemma bom_utf32_le r fin : detectencoding_str (255 :: 254 :: 0 :: 0 :: r)%N fin = Some (Some utf32, true).
+Proof. to4. done_leaf. Qed.
+
+Lemma bom_utf32_be r fin : detectencoding_str (0 :: 0 :: 254 :: 255 :: r)%N fin = Some (Some utf32, true).
+Proof. to4. done_leaf. Qed.
+
+(* the rule head as it looks in UTF-16/32 without BOM (table at the top of _codec3.py): implicit detection *)
+Lemma implicit_utf32_le r fin : detectencoding_str (64 :: 0 :: 0 :: 0 :: r)%N fin = Some (Some (s "utf-32-le"), false).
+Proof. to4. done_leaf. Qed.
+Lemma implicit_utf32_be r fin : detectencoding_str (0 :: 0 :: 0 :: 64 :: r)%N fin = Some (Some (s "utf-32-be"), false).
+Proof. to4. done_leaf. Qed.
+Lemma implicit_utf16_le r fin : detectencoding_str (64 :: 0 :: 99 :: 0 :: r)%N fin = Some (Some (s "utf-16-le"), false).
+Proof. to4. done_leaf. Qed.
+Lemma implicit_utf16_be r fin : detectencoding_str (0 :: 64 :: r)%N fin = Some (Some (s "utf-16-be"), false).
+Proof.
+  destruct r as [|b2 [|b3 r]]; [rewrite detect_2; done_leaf|rewrite detect_3; unfold C3; sp2 b2; done_leaf|].
+  to4. sp2 b2; try solve [done_leaf]; sp3 b3; done_leaf.
+Qed.
+
+Lemma notin_find_none c x : ~ In c x -> find_char c x = None.
+Proof.
+  induction x as [|a x IH]; simpl; intros H; [reflexivity|].
+  destruct (N.eqb a c) eqn:E; [apply N.eqb_eq in E; tauto|]. rewrite IH; tauto.
+Qed.
+
+Lemma charset_branch_hit e rest k : ~ In 34%N e ->
+  charset_branch (prefix ++ e ++ 34%N :: rest) k = Some (Some e, true).
+Proof.
+  intros H. unfold charset_branch.
+  assert (Hs : starts prefix (prefix ++ e ++ 34%N :: rest) = true) by (apply starts_spec; eauto).
+  rewrite Hs. change (skipn 10 (prefix ++ e ++ 34%N :: rest)) with (e ++ 34%N :: rest).
+  rewrite find_char_skip by exact H. rewrite firstn_app_lt by lia. now rewrite firstn_all.
+Qed.
+
+Lemma charset_branch_miss e k : ~ In 34%N e -> charset_branch (prefix ++ e) k = k.
+Proof.
+  intros H. unfold charset_branch.
+  assert (Hs : starts prefix (prefix ++ e) = true) by (apply starts_spec; eauto).
+  rewrite Hs. change (skipn 10 (prefix ++ e)) with e. now rewrite notin_find_none.
+Qed.
+
+Lemma post_charset input f :
+  dpost 512 4 input f =
+  charset_branch input (if f then Some (Some utf8, false) else Some (None, false)).
+Proof.
+  unfold dpost. cbv beta zeta. fold prefix. rewrite !charset_branch_eq.
+  change (512 =? 0) with false. change (Z.land 512 (512 - 1) =? 0) with true.
+  change (Z.land 512 2 =? 0) with true. cbn [Z.eqb Z.geb Z.compare Pos.compare Pos.compare_cont andb negb].
+  destruct f; reflexivity.
+Qed.
+
+(* a leading  @charset "e"  rule names the encoding, whatever follows *)
+Lemma charset_rule_detected e rest fin : ~ In 34%N e ->
+  detectencoding_str (prefix ++ e ++ 34%N :: rest) fin = Some (Some e, true).
+Proof.
+  intros H.
+  change (prefix ++ e ++ 34%N :: rest) with (64 :: 99 :: 104 :: 97 :: ([114; 115; 101; 116; 32; 34] ++ e ++ 34 :: rest))%N.
+  rewrite detect_4. rewrite (post_li _ _ 4) by (apply len4 || lia).
+  replace (C4 64 99 104 97) with 512 by (vm_compute; reflexivity).
+  rewrite post_charset.
+  change (64 :: 99 :: 104 :: 97 :: ([114; 115; 101; 116; 32; 34] ++ e ++ 34 :: rest))%N with (prefix ++ e ++ 34%N :: rest).
+  now apply charset_branch_hit.
+Qed.
+
+(* an unterminated rule at end of input: UTF-8 *)
+Lemma charset_unterminated e : ~ In 34%N e ->
+  detectencoding_str (prefix ++ e) true = Some (Some utf8, false).
+Proof.
+  intros H.
+  change (prefix ++ e) with (64 :: 99 :: 104 :: 97 :: ([114; 115; 101; 116; 32; 34] ++ e))%N.
+  rewrite detect_4. rewrite (post_li _ _ 4) by (apply len4 || lia).
+  replace (C4 64 99 104 97) with 512 by (vm_compute; reflexivity).
+  rewrite post_charset.
+  change (64 :: 99 :: 104 :: 97 :: ([114; 115; 101; 116; 32; 34] ++ e))%N with (prefix ++ e).
+  now rewrite charset_branch_miss.
+Qed.
+
+(* no BOM byte, no '@', no NUL in front: UTF-8, implicitly, already on the first byte *)
+Lemma default_utf8_first b0 r fin : (b0 <> 239 -> b0 <> 255 -> b0 <> 254 -> b0 <> 64 -> b0 <> 0 ->
+  detectencoding_str (b0 :: r) fin = Some (Some utf8, false))%N.
+Proof.
+  intros H1 H2 H3 H4 H5.
+  destruct r as [|b1 [|b2 [|b3 r]]];
+    [rewrite detect_1; unfold C1|rewrite detect_2; unfold C2|rewrite detect_3; unfold C3|to4];
+    sp0 b0; try contradiction; done_leaf.
+Qed.
+
+Lemma default_utf8_empty : detectencoding_str [] true = Some (Some utf8, false).
+Proof. reflexivity. Qed.
+
+(* ================================================================== _fixencoding / detectencoding_unicode *)
+Lemma is_sig_utf8 : is_sig utf8 = false.
+Proof. reflexivity. Qed.
+
+Lemma nosig_idem e : nosig (nosig e) = nosig e.
+Proof. unfold nosig. destruct (is_sig e) eqn:E; [|now rewrite E]. fold utf8. now rewrite is_sig_utf8. Qed.
+
+Lemma fix_nosig t e f : fixencoding t (nosig e) f = fixencoding t e f.
+Proof. rewrite !fix_eq. unfold fix_ref. now rewrite nosig_idem. Qed.
+
+Lemma fix_final_some t e : exists r, fixencoding t e true = Some r.
+Proof.
+  rewrite fix_eq. unfold fix_ref. destruct (starts prefix t).
+  - destruct (find_char 34%N (skipn 10 t)); eauto.
+  - rewrite !orb_true_r. eauto.
+Qed.
+
+Lemma fix_monotone t u e fin r :
+  fixencoding t e false = Some r -> fixencoding (t ++ u) e fin = Some (r ++ u).
+Proof.
+  rewrite !fix_eq. unfold fix_ref. destruct (starts prefix t) eqn:Hs.
+  - pose proof (starts_prefix_len _ Hs) as Hl. rewrite (starts_app _ _ u Hs).
+    rewrite skipn_app_le by exact Hl.
+    destruct (find_char 34%N (skipn 10 t)) as [k|] eqn:Hf; [|discriminate].
+    rewrite (find_char_app _ _ u _ Hf). intros H. inversion H; subst.
+    apply find_char_lt in Hf. rewrite skipn_length in Hf.
+    rewrite skipn_app_le by lia. unfold prefix. cbn [app]. now rewrite <- app_assoc.
+  - rewrite orb_false_r. intros H.
+    destruct (10 <? length t)%nat eqn:Hlt.
+    + inversion H; subst. apply Nat.ltb_lt in Hlt.
+      rewrite starts_app_long by (simpl; lia). rewrite Hs.
+      assert (E : (10 <? length (r ++ u))%nat = true) by (apply Nat.ltb_lt; rewrite app_length; lia).
+      now rewrite E.
+    + simpl in H. destruct (starts t prefix) eqn:Hp; [discriminate|]. inversion H; subst.
+      apply Nat.ltb_ge in Hlt.
+      rewrite not_prefix_ext_starts by (simpl; lia || exact Hp).
+      rewrite (not_prefix_ext _ _ u Hp). simpl. now rewrite orb_true_r.
+Qed.
+
+Lemma nth_error_skipn {A} (l : list A) k a : nth_error l k = Some a -> skipn k l = a :: skipn (S k) l.
+Proof.
+  revert k; induction l as [|x l IH]; intros [|k] H; simpl in *; try discriminate.
+  - now inversion H.
+  - now apply IH.
+Qed.
+
+Lemma skipn_add {A} a b (l : list A) : skipn (a + b) l = skipn b (skipn a l).
+Proof.
+  revert l; induction a as [|a IH]; intros l; simpl; [reflexivity|].
+  destruct l as [|x l]; [now rewrite skipn_nil|apply IH].
+Qed.
+
+(* the rewrite is idempotent when the (normalised) name contains no double quote *)
+Lemma fix_idem t e f r : ~ In 34%N (nosig e) ->
+  fixencoding t e f = Some r -> fixencoding r e true = Some r.
+Proof.
+  intros Hq. rewrite !fix_eq. unfold fix_ref at 1. destruct (starts prefix t) eqn:Hs.
+  - destruct (find_char 34%N (skipn 10 t)) as [k|] eqn:Hf.
+    + intros H.
+      assert (Hr : r = prefix ++ nosig e ++ skipn (10 + k) t) by congruence. clear H. rewrite Hr. clear Hr r.
+      pose proof (find_char_nth _ _ _ Hf) as Hn. apply nth_error_skipn in Hn.
+      rewrite skipn_add, Hn. unfold fix_ref.
+      assert (Hs2 : starts prefix (prefix ++ nosig e ++ 34%N :: skipn (S k) (skipn 10 t)) = true)
+        by (apply starts_spec; eauto).
+      rewrite Hs2.
+      change (skipn 10 (prefix ++ nosig e ++ 34%N :: skipn (S k) (skipn 10 t)))
+        with (nosig e ++ 34%N :: skipn (S k) (skipn 10 t)).
+      rewrite find_char_skip by exact Hq.
+      do 2 f_equal.
+      change (skipn (10 + length (nosig e)) (prefix ++ nosig e ++ 34%N :: skipn (S k) (skipn 10 t)))
+        with (skipn (length (nosig e)) (nosig e ++ 34%N :: skipn (S k) (skipn 10 t))).
+      rewrite skipn_app_le by lia. rewrite skipn_all. reflexivity.
+    + destruct f; [|discriminate]. intros H. inversion H; subst. unfold fix_ref. now rewrite Hs, Hf.
+  - intros H.
+    assert (r = t) by (destruct ((10 <? length t)%nat || negb (starts t prefix) || f); now inversion H).
+    subst. unfold fix_ref. rewrite Hs. now rewrite !orb_true_r.
+Qed.
+
+Lemma detectu_monotone p q fin e x :
+  detectencoding_unicode p false = (Some e, x) -> detectencoding_unicode (p ++ q) fin = (Some e, x).
+Proof.
+  rewrite !detectu_eq. unfold detectu_ref. destruct (starts prefix p) eqn:Hs.
+  - pose proof (starts_prefix_len _ Hs) as Hl. rewrite (starts_app _ _ q Hs).
+    rewrite skipn_app_le by exact Hl.
+    destruct (find_char 34%N (skipn 10 p)) as [k|] eqn:Hf; [|discriminate].
+    rewrite (find_char_app _ _ q _ Hf). intros H. inversion H; subst.
+    rewrite firstn_app_lt; [reflexivity|]. apply find_char_lt in Hf. lia.
+  - rewrite orb_false_l. destruct (starts p prefix) eqn:Hp; cbn [negb]; [discriminate|]. intros H.
+    assert (E1 : starts prefix (p ++ q) = false).
+    { destruct (le_lt_dec (length p) 10) as [L|L].
+      - apply not_prefix_ext_starts; [simpl; lia|exact Hp].
+      - rewrite starts_app_long by (simpl; lia). exact Hs. }
+    rewrite E1, (not_prefix_ext _ _ q Hp). cbn [negb]. rewrite orb_true_r. exact H.
+Qed.
+
+(* once the text-level detector has an answer, _fixencoding has one too *)
+Lemma detectu_some_fix p e e' :
+  fst (detectencoding_unicode p false) = Some e -> fixencoding p e' false = fixencoding p e' true.
+Proof.
+  rewrite detectu_eq, !fix_eq. unfold detectu_ref, fix_ref. destruct (starts prefix p) eqn:Hs.
+  - destruct (find_char 34%N (skipn 10 p)); [reflexivity|discriminate].
+  - simpl. destruct (starts p prefix); simpl; [discriminate|]. now rewrite !orb_true_r.
+Qed.
+
+(* ================================================================== which encoding is used *)
+Lemma pick_explicit e input fin : pick_encoding (Some e) true input fin = PEnc e.
+Proof. reflexivity. Qed.
+
+Lemma pick_final_not_buffer enc force input : pick_encoding enc force input true <> PBuffer.
+Proof.
+  unfold pick_encoding. destruct (detect_final input) as [e [x He]]. rewrite He.
+  destruct enc as [e'|]; [destruct force|]; cbn [negb]; try discriminate;
+    destruct (is_css e); try discriminate; destruct (x && _); discriminate.
+Qed.
+
+Lemma pick_mono enc force p q :
+  pick_encoding enc force p false = PBuffer \/
+  pick_encoding enc force (p ++ q) true = pick_encoding enc force p false.
+Proof.
+  unfold pick_encoding.
+  destruct (match enc with None => true | Some _ => negb force end); [|now right].
+  destruct (detect_total p false) as [[[e|] x] Hd]; rewrite Hd; [right|now left].
+  now rewrite (detect_monotone _ q true _ _ Hd).
+Qed.
+
+(* ================================================================== chunking invariance *)
+Arguments ds_dec {dst} _.
+Arguments ds_enc {dst} _.
+Arguments ds_force {dst} _.
+Arguments ds_buf {dst} _.
+Arguments ds_fixed {dst} _.
+Arguments es_enc {est} _.
+Arguments es_encoding {est} _.
+Arguments es_buf {est} _.
+
+Section Facts.
+  Variable dst : Type.
+  Variable dinit : str -> option dst.
+  Variable dstep : dst -> str -> bool -> dst * res str.
+  Variable dshot : str -> str -> res str.
+  Variable est : Type.
+  Variable einit : str -> option est.
+  Variable estep : est -> str -> bool -> est * res str.
+  Variable eshot : str -> str -> res str.
+
+  (* feeding a then b  ==  feeding a ++ b ; an error is final *)
+  Hypothesis dstep_concat : forall d a b fin d' o1, dstep d a false = (d', Ok o1) ->
+    dstep d (a ++ b) fin =
+    (fst (dstep d' b fin), match snd (dstep d' b fin) with Ok o2 => Ok (o1 ++ o2) | Err e => Err e end).
+  Hypothesis dstep_error : forall d a b fin d' e, dstep d a false = (d', Err e) -> snd (dstep d (a ++ b) fin) = Err e.
+  (* one-shot = incremental from the initial state with final *)
+  Hypothesis dshot_spec : forall e b,
+    dshot e b = match dinit e with None => Err ELookup | Some d => snd (dstep d b true) end.
+  Hypothesis estep_concat : forall d a b fin d' o1, estep d a false = (d', Ok o1) ->
+    estep d (a ++ b) fin =
+    (fst (estep d' b fin), match snd (estep d' b fin) with Ok o2 => Ok (o1 ++ o2) | Err e => Err e end).
+  Hypothesis estep_error : forall d a b fin d' e, estep d a false = (d', Err e) -> snd (estep d (a ++ b) fin) = Err e.
+  Hypothesis eshot_spec : forall e t,
+    eshot e t = match einit e with None => Err ELookup | Some d => snd (estep d t true) end.
+
+  Notation dec_with := (dec_with dst dstep).
+  Notation dec_step := (dec_step dst dinit dstep).
+  Notation dec_feed := (dec_feed dst dinit dstep).
+  Notation enc_step := (enc_step est einit estep).
+  Notation enc_feed := (enc_feed est einit estep).
+
+  Definition seqr (r1 r2 : res str) : res str :=
+    match r1 with
+    | Ok o => match r2 with Ok o' => Ok (o ++ o') | Err e => Err e end
+    | Err e => Err e
+    end.
+
+  Lemma dec_with_merge st d a b :
+    snd (dec_with st d (a ++ b) true) =
+    seqr (snd (dec_with st d a false)) (snd (dec_step (fst (dec_with st d a false)) b true)).
+  Proof.
+    unfold Codec.dec_with. destruct (ds_enc st) as [enc|] eqn:Henc; [|reflexivity].
+    destruct (dstep d a false) as [d' [o1|e]] eqn:H1.
+    2:{ pose proof (dstep_error _ _ b true _ _ H1) as E. destruct (dstep d (a ++ b) true) as [d2 r2].
+        simpl in E. subst r2. reflexivity. }
+    rewrite (dstep_concat _ _ b true _ _ H1).
+    destruct (ds_fixed st) eqn:Hfx.
+    - cbn [fst snd]. unfold Codec.dec_step, Codec.dec_with. cbn [ds_dec ds_enc ds_fixed ds_buf ds_force].
+      try rewrite Henc. destruct (dstep d' b true) as [d2 [o2|e2]]; reflexivity.
+    - destruct (fixencoding (ds_buf st ++ o1) (nosig enc) false) as [r1|] eqn:Hf1.
+      + cbn [fst snd]. unfold Codec.dec_step, Codec.dec_with. cbn [ds_dec ds_enc ds_fixed ds_buf ds_force].
+        try rewrite Henc. destruct (dstep d' b true) as [d2 [o2|e2]]; cbn [fst snd]; [|reflexivity].
+        rewrite app_assoc. rewrite (fix_monotone _ o2 _ true _ Hf1). reflexivity.
+      + cbn [fst snd]. unfold Codec.dec_step, Codec.dec_with. cbn [ds_dec ds_enc ds_fixed ds_buf ds_force].
+        try rewrite Henc. destruct (dstep d' b true) as [d2 [o2|e2]]; cbn [fst snd]; [|reflexivity].
+        rewrite app_assoc.
+        destruct (fix_final_some ((ds_buf st ++ o1) ++ o2) (nosig enc)) as [r Hr]. rewrite Hr. reflexivity.
+  Qed.
+
+  Lemma dec_merge st a b :
+    snd (dec_step st (a ++ b) true) =
+    seqr (snd (dec_step st a false)) (snd (dec_step (fst (dec_step st a false)) b true)).
+  Proof.
+    unfold Codec.dec_step at 1 2 4. destruct (ds_dec st) as [d|] eqn:Hd; [apply dec_with_merge|].
+    rewrite app_assoc.
+    destruct (pick_mono (ds_enc st) (ds_force st) (ds_buf st ++ a) b) as [Hb|Hm].
+    - rewrite Hb. cbn [fst snd seqr]. unfold Codec.dec_step. cbn [ds_dec ds_enc ds_force ds_buf ds_fixed].
+      destruct (pick_encoding (ds_enc st) (ds_force st) ((ds_buf st ++ a) ++ b) true) as [|e|e]; try reflexivity.
+      destruct (dinit e); [|reflexivity].
+      match goal with |- ?x = _ => destruct x end; reflexivity.
+    - rewrite Hm. destruct (pick_encoding (ds_enc st) (ds_force st) (ds_buf st ++ a) false) as [|e|e] eqn:Hp.
+      + exfalso. eapply pick_final_not_buffer. exact Hm.
+      + reflexivity.
+      + destruct (dinit e) as [d|]; [|reflexivity]. apply dec_with_merge.
+  Qed.
+
+  Lemma dec_feed_merge chunks : forall st last,
+    dec_feed st chunks last = snd (dec_step st (concat chunks ++ last) true).
+  Proof.
+    induction chunks as [|c r IH]; intros st last; [reflexivity|].
+    cbn [Codec.dec_feed concat]. rewrite <- app_assoc, dec_merge.
+    destruct (dec_step st c false) as [st' [o|e]]; cbn [fst snd seqr]; [|reflexivity].
+    now rewrite IH.
+  Qed.
+
+  Lemma dec_single enc force input :
+    snd (dec_step (dec_init dst enc force) input true) = decode dshot input enc force.
+  Proof.
+    unfold Codec.dec_step, dec_init, decode. cbn [ds_dec ds_enc ds_force ds_buf ds_fixed app].
+    destruct (pick_encoding enc force input true) as [|e|e] eqn:Hp.
+    - exfalso. eapply pick_final_not_buffer. exact Hp.
+    - reflexivity.
+    - rewrite dshot_spec. destruct (dinit e) as [d|]; [|reflexivity].
+      unfold Codec.dec_with. cbn [ds_dec ds_enc ds_force ds_buf ds_fixed app].
+      destruct (dstep d input true) as [d' [o|x]]; cbn [snd]; [|reflexivity].
+      rewrite fix_nosig. destruct (fix_final_some o e) as [r Hr]. rewrite Hr. reflexivity.
+  Qed.
+
+  (* THE decoder theorem: every way of cutting the byte stream gives the one-shot result *)
+  Theorem incdec_chunking_thm enc force chunks last :
+    dec_feed (dec_init dst enc force) chunks last = decode dshot (concat chunks ++ last) enc force.
+  Proof. rewrite dec_feed_merge. apply dec_single. Qed.
+
+  (* ---------------------------------------------------------------- encoder *)
+  Lemma not_quote_utf8 : ~ In 34%N (nosig utf8).
+  Proof. vm_compute. intuition discriminate. Qed.
+
+  Lemma estep_merge e a b :
+    snd (estep e (a ++ b) true) =
+    seqr (snd (estep e a false)) (snd (estep (fst (estep e a false)) b true)).
+  Proof.
+    destruct (estep e a false) as [e' [o1|x]] eqn:H1.
+    - rewrite (estep_concat _ _ b true _ _ H1). cbn [fst snd seqr]. reflexivity.
+    - rewrite (estep_error _ _ b true _ _ H1). reflexivity.
+  Qed.
+
+  (* the tail of enc_step once encoding and (rewritten) input are known *)
+  Definition enc_go (bufold : str) (enc : str) (input : str) (final : bool) : estate est * res str :=
+    if is_css enc then (mkE est None (Some enc) bufold, Err EValue)
+    else match einit enc with
+         | None => (mkE est None (Some enc) bufold, Err ELookup)
+         | Some e =>
+           match (if is_sig enc then fixencoding input utf8 true else Some input) with
+           | None => (mkE est (Some e) (Some enc) [], Err EType)
+           | Some input => (mkE est (Some (fst (estep e input final))) (Some enc) [], snd (estep e input final))
+           end
+         end.
+
+  Lemma enc_go_buf b1 b2 enc x f : snd (enc_go b1 enc x f) = snd (enc_go b2 enc x f).
+  Proof.
+    unfold enc_go. destruct (is_css enc); [reflexivity|]. destruct (einit enc); [|reflexivity].
+    destruct (if is_sig enc then fixencoding x utf8 true else Some x); reflexivity.
+  Qed.
+
+  Lemma enc_go_merge bufold enc x b :
+    (is_sig enc = true -> exists r, fixencoding x utf8 true = Some r /\ fixencoding (x ++ b) utf8 true = Some (r ++ b)) ->
+    snd (enc_go bufold enc (x ++ b) true) =
+    seqr (snd (enc_go bufold enc x false)) (snd (enc_step (fst (enc_go bufold enc x false)) b true)).
+  Proof.
+    intros Hsig. unfold enc_go. destruct (is_css enc); [reflexivity|].
+    destruct (einit enc) as [e|]; [|reflexivity].
+    assert (G : forall y, snd (estep e (y ++ b) true) =
+              seqr (snd (estep e y false))
+                   (snd (enc_step (mkE est (Some (fst (estep e y false))) (Some enc) []) b true))).
+    { intros y. rewrite estep_merge. destruct (estep e y false) as [e' [o1|z]]; cbn [fst snd seqr]; [|reflexivity].
+      unfold Codec.enc_step; cbn [es_enc]. destruct (estep e' b true) as [e2 [o2|z]]; reflexivity. }
+    destruct (is_sig enc) eqn:Hs.
+    - destruct (Hsig eq_refl) as [r [H1 H2]]. rewrite H1, H2. cbn [fst snd]. apply G.
+    - cbn [fst snd]. apply G.
+  Qed.
+
+  Lemma enc_step_unfold st input final :
+    es_enc st = None ->
+    enc_step st input final =
+    match es_encoding st with
+    | Some enc => match fixencoding (es_buf st ++ input) (nosig enc) final with
+                  | None => (mkE est None (es_encoding st) (es_buf st ++ input), Ok [])
+                  | Some ni => enc_go (es_buf st) enc ni final
+                  end
+    | None => match fst (detectencoding_unicode (es_buf st ++ input) final) with
+              | None => if final then enc_go (es_buf st) utf8 (es_buf st ++ input) final
+                        else (mkE est None None (es_buf st ++ input), Ok [])
+              | Some enc => enc_go (es_buf st) enc (es_buf st ++ input) final
+              end
+    end.
+  Proof.
+    intros H. unfold Codec.enc_step, enc_go, utf8. rewrite H.
+    destruct (es_encoding st) as [enc|].
+    - destruct (fixencoding (es_buf st ++ input) (nosig enc) final) as [ni|]; [|reflexivity].
+      destruct (is_css enc); [reflexivity|]. destruct (einit enc) as [e|]; [|reflexivity].
+      match goal with |- context[if is_sig ?e then ?a else ?b] => destruct (if is_sig e then a else b) as [i|] end; [|reflexivity].
+      destruct (estep e i final); reflexivity.
+    - destruct (fst (detectencoding_unicode (es_buf st ++ input) final)) as [enc|]; cbv beta iota zeta.
+      + destruct (is_css enc); [reflexivity|]. destruct (einit enc) as [e|]; [|reflexivity].
+        match goal with |- context[if is_sig ?e then ?a else ?b] => destruct (if is_sig e then a else b) as [i|] end; [|reflexivity].
+        destruct (estep e i final); reflexivity.
+      + destruct final; [|reflexivity]. cbv beta iota zeta.
+        destruct (is_css (s "utf-8")); [reflexivity|]. destruct (einit (s "utf-8")) as [e|]; [|reflexivity].
+        match goal with |- context[if is_sig ?e then ?a else ?b] => destruct (if is_sig e then a else b) as [i|] end; [|reflexivity].
+        destruct (estep e i true); reflexivity.
+  Qed.
+
+  Lemma enc_merge st a b :
+    snd (enc_step st (a ++ b) true) =
+    seqr (snd (enc_step st a false)) (snd (enc_step (fst (enc_step st a false)) b true)).
+  Proof.
+    destruct (es_enc st) as [e|] eqn:He.
+    - unfold Codec.enc_step at 1 2 4. rewrite He.
+      pose proof (estep_merge e a b) as M.
+      destruct (estep e a false) as [e' [o1|x]]; destruct (estep e (a ++ b) true) as [e2 r2];
+        cbn [fst snd] in *; unfold Codec.enc_step; cbn [es_enc]; rewrite M;
+        try reflexivity.
+      destruct (estep e' b true); reflexivity.
+    - rewrite !(enc_step_unfold st _ _ He). rewrite app_assoc.
+      destruct (es_encoding st) as [enc|] eqn:Henc.
+      + destruct (fixencoding (es_buf st ++ a) (nosig enc) false) as [ni|] eqn:Hf.
+        * rewrite (fix_monotone _ b _ true _ Hf). apply enc_go_merge. intros Hs.
+          assert (Hn : nosig enc = utf8) by (unfold nosig; now rewrite Hs).
+          rewrite Hn in Hf. exists ni. split.
+          -- eapply fix_idem; [apply not_quote_utf8|exact Hf].
+          -- eapply fix_idem; [apply not_quote_utf8|]. apply (fix_monotone _ b _ true _ Hf).
+        * cbn [fst snd seqr]. rewrite enc_step_unfold by reflexivity. cbn [es_encoding es_buf].
+          destruct (fixencoding ((es_buf st ++ a) ++ b) (nosig enc) true) as [ni|]; [|reflexivity].
+          rewrite (enc_go_buf (es_buf st ++ a) (es_buf st)).
+          destruct (snd (enc_go (es_buf st) enc ni true)); reflexivity.
+      + destruct (detectencoding_unicode (es_buf st ++ a) false) as [[enc|] x] eqn:Hd.
+        * rewrite (detectu_monotone _ b true _ _ Hd). cbn [fst].
+          (* sig: the whole prefix is fixed with final=True at detection time *)
+          assert (Hfx : fixencoding (es_buf st ++ a) utf8 false = fixencoding (es_buf st ++ a) utf8 true)
+            by (eapply detectu_some_fix; rewrite Hd; reflexivity).
+          apply enc_go_merge. intros _.
+          destruct (fix_final_some (es_buf st ++ a) utf8) as [r Hr]. exists r. split; [exact Hr|].
+          rewrite Hr in Hfx. apply (fix_monotone _ b _ true _ Hfx).
+        * cbn [fst snd seqr]. rewrite enc_step_unfold by reflexivity. cbn [es_encoding es_buf].
+          destruct (fst (detectencoding_unicode ((es_buf st ++ a) ++ b) true)) as [enc|];
+            rewrite (enc_go_buf (es_buf st ++ a) (es_buf st));
+            match goal with |- _ = match ?x with _ => _ end => destruct x end; reflexivity.
+  Qed.
+
+  Lemma enc_feed_merge chunks : forall st last,
+    enc_feed st chunks last = snd (enc_step st (concat chunks ++ last) true).
+  Proof.
+    induction chunks as [|c r IH]; intros st last; [reflexivity|].
+    cbn [Codec.enc_feed concat]. rewrite <- app_assoc, enc_merge.
+    destruct (enc_step st c false) as [st' [o|e]]; cbn [fst snd seqr]; [|reflexivity].
+    now rewrite IH.
+  Qed.
+
+  Lemma enc_single enc input :
+    snd (enc_step (enc_init est enc) input true) = encode eshot input enc.
+  Proof.
+    rewrite enc_step_unfold by reflexivity. unfold enc_init, encode, encode_with, enc_go.
+    cbn [es_encoding es_buf app]. destruct enc as [enc|].
+    - rewrite fix_nosig. destruct (fix_final_some input enc) as [r Hr]. rewrite Hr. cbv beta iota.
+      destruct (is_css enc); [reflexivity|]. rewrite eshot_spec.
+      destruct (einit enc) as [e|]; [|reflexivity].
+      destruct (is_sig enc) eqn:Hs.
+      + assert (Hn : nosig enc = utf8) by (unfold nosig; now rewrite Hs).
+        rewrite <- fix_nosig, Hn in Hr. rewrite (fix_idem _ _ _ _ not_quote_utf8 Hr).
+        reflexivity.
+      + reflexivity.
+    - fold utf8. destruct (fst (detectencoding_unicode input true)) as [enc|]; cbv beta iota.
+      + destruct (is_css enc); [reflexivity|].
+        destruct (is_sig enc); [destruct (fix_final_some input utf8) as [i Hi]; rewrite Hi|]; cbv beta iota;
+          try rewrite eshot_spec; destruct (einit enc) as [e|]; try reflexivity.
+      + destruct (is_css utf8); [reflexivity|]. rewrite is_sig_utf8. cbv beta iota. rewrite eshot_spec.
+        destruct (einit utf8) as [e|]; reflexivity.
+  Qed.
+
+  (* THE encoder theorem *)
+  Theorem incenc_chunking_thm enc chunks last :
+    enc_feed (enc_init est enc) chunks last = encode eshot (concat chunks ++ last) enc.
+  Proof. rewrite enc_feed_merge. apply enc_single. Qed.
+
+  (* ---------------------------------------------------------------- decode after encode *)
+  Theorem decode_encode_thm e t b :
+    (forall x y, eshot e x = Ok y -> dshot e y = Ok x) ->      (* the codec named e is invertible *)
+    ~ In 34%N (nosig e) ->
+    encode eshot t (Some e) = Ok b ->
+    exists r, fixencoding t e true = Some r /\ decode dshot b (Some e) true = Ok r.
+  Proof.
+    intros Hinv Hq. unfold encode, encode_with, decode. rewrite pick_explicit.
+    destruct (is_css e); [discriminate|].
+    destruct (fixencoding t e true) as [r|] eqn:Hr; [|discriminate].
+    intros Hb. exists r. split; [reflexivity|]. rewrite (Hinv _ _ Hb).
+    now rewrite (fix_idem _ _ _ _ Hq Hr).
+  Qed.
+End Facts.
+
+(* ================================================================== the hypotheses are satisfiable *)
+(* a one-byte-per-character codec named "latin-1": stateless, never fails *)
+Definition id_init (e : str) : option unit := if eqs e (s "latin-1") then Some tt else None.
+Definition id_step (_ : unit) (b : str) (_ : bool) : unit * res str := (tt, Ok b).
+Definition id_shot (e : str) (b : str) : res str := if eqs e (s "latin-1") then Ok b else Err ELookup.
+
+Lemma id_concat d a b fin d' o1 : id_step d a false = (d', Ok o1) ->
+  id_step d (a ++ b) fin =
+  (fst (id_step d' b fin), match snd (id_step d' b fin) with Ok o2 => Ok (o1 ++ o2) | Err e => Err e end).
+Proof. unfold id_step. intros [= <- <-]. reflexivity. Qed.
+Lemma id_error d a b fin d' e : id_step d a false = (d', Err e) -> snd (id_step d (a ++ b) fin) = Err e.
+Proof. unfold id_step. discriminate. Qed.
+Lemma id_shot_spec e b :
+  id_shot e b = match id_init e with None => Err ELookup | Some d => snd (id_step d b true) end.
+Proof. unfold id_shot, id_init. destruct (eqs e (s "latin-1")); reflexivity. Qed.
